@@ -24,7 +24,7 @@ func runC13(run *common.Run) {
 	run.Rule = "case = one program on one engine: a prior row state (cells at clock-1ms / clock / clock+1h / 0, values of length 0,1,7,8,9) followed by 2-6 ReadModifyWriteRow requests with 0-5 rules (repeated columns, mixed append/increment, extreme amounts, unknown family at any position) under a moving injected clock (non-millisecond values, backward steps); after each request the response row and a full re-read are compared with the RMW model. Non-trivial = at least one request hit a prior cell in the future of the clock and one request was rejected or wrapped around; distinct by program x engine."
 	run.Assumptions = []string{"an increment on an existing cell whose value is empty may fail without change or count as 0", "family order in the response row is not compared", "a request with no rules may be rejected or be a no-op"}
 	j := common.NewJournal("C13")
-	nprog := run.N(400, 15000)
+	nprog := run.N(1500, 30000)
 	common.Parallel(nprog*3, workers(), func(i int) {
 		prog, engine := i/3, drive.Engines[i%3]
 		if !run.Want("prog", i) || run.TooMany() {
